@@ -79,6 +79,21 @@ pub fn generate(ctx: &mut Ctx) {
             }
         }
     }
+    for len in gen::sweep_lengths() {
+        if len > 5000 {
+            continue;
+        }
+        if ctx.mine(bi) {
+            for unit in ["a", "\u{e9}"] {
+                let b = unit.repeat(len);
+                for p in [format!("{}/x/y", b), format!("/x/{}/y", b), format!("x/y/{}", b), format!("/{}/", b), format!("{}", b), format!("/{}/{}/{}", b, b, b), "x/".repeat(len), format!("/{}", "/".repeat(len))] {
+                    ctx.run(Case::new("path").arg(p.as_bytes()).num(0x5555_5555_5555_5555));
+                    ctx.run(Case::new("path").arg(p.as_bytes()).num(0xFFFF_FFFF_0000_0001));
+                }
+            }
+        }
+        bi += 1;
+    }
     let n = ctx.by_tier(200_000u64, 2_000_000u64) / ctx.nshards;
     for i in 0..n {
         let mut rng = ctx.rng("path", i);
